@@ -72,7 +72,8 @@ SInit(w, h, multi, mphid, align) ==
 NewBar(r, vis, inmp) ==
     [tpl |-> r.tpl, msg |-> r.m0, prefix |-> r.p0, pos |-> r.pos0, len |-> r.len, fin |-> "no",
      onfin |-> r.fin, fm |-> r.fm, tabw |-> r.tabw, pend |-> <<>>, drawn |-> FALSE, onscr |-> <<>>,
-     vis |-> vis, inmp |-> inmp, alive |-> TRUE, nh |-> 1, static |-> FALSE, mayVanish |-> FALSE]
+     vis |-> vis, inmp |-> inmp, alive |-> TRUE, nh |-> 1, static |-> FALSE, mayVanish |-> FALSE,
+     born |-> r.t, weak |-> FALSE]       \* creation time (virtual microseconds); a WeakProgressBar exists
 
 Bar(S, b) == S.bars[b]
 Visible(S, b) == b \in S.ids /\ S.bars[b].vis
@@ -142,8 +143,10 @@ Apply(S, r) ==
       [] r.op = "set_prefix"    -> Plain(Req(SetBar(S, b, [B EXCEPT !.prefix = r.m]), b))
       [] r.op = "set_style"     -> Plain(SetBar(S, b, [B EXCEPT !.tpl = r.tpl]))            \* documented: does not redraw
       [] r.op = "set_tab_width" -> Res(Req(SetBar(S, b, [B EXCEPT !.tabw = r.n]), b), <<>>, vis, FALSE)
-      [] r.op = "reset"         -> Plain(Req(SetBar(S, b, [B EXCEPT !.pos = 0, !.fin = "no"]), b))
-      [] r.op \in {"reset_eta", "reset_elapsed"} -> Plain(S)
+      [] r.op = "reset"         -> Plain(Req(SetBar(S, b, [B EXCEPT !.pos = 0, !.fin = "no", !.born = r.t]), b))   \* also restarts the elapsed time
+      [] r.op = "reset_elapsed" -> Plain(SetBar(S, b, [B EXCEPT !.born = r.t]))
+      [] r.op = "reset_eta"     -> Plain(S)
+      [] r.op = "downgrade"     -> Plain(SetBar(S, b, [B EXCEPT !.weak = TRUE]))
       [] r.op = "finish"               -> fin("AndLeave", <<>>)
       [] r.op = "finish_with_message"  -> fin("WithMessage", r.m)
       [] r.op = "finish_and_clear"     -> fin("AndClear", <<>>)
